@@ -312,3 +312,151 @@ Definition propose (d : doc) (line col : N) : res (option (list item)) :=
       | _ => ROk (Some (new_global_declaration g))
       end
   end.
+
+(* ==========================================================================================
+   Specification side (used by Proofs/CompletionProofs.v and by the judge): the four position
+   classes of C16, decided from the tokens and the syntax tree of a document, and what the property
+   prescribes there.  A cursor position is classified by the significant (non-comment) token that
+   ends at or before it and the one that starts at or after it; a position inside a token or
+   strictly inside a comment belongs to no class. *)
+Definition is_comment (k : kind) : bool := match k with Comment _ => true | _ => false end.
+
+Fixpoint indexed {A} (i : nat) (l : list A) : list (nat * A) :=
+  match l with [] => [] | x :: r => (i, x) :: indexed (S i) r end.
+
+Definition sig_tokens (toks : list token) : list (nat * token) :=
+  filter (fun it => negb (is_comment (tk (snd it)))) (indexed 0 toks).
+
+Fixpoint around (idx : N) (prev : option (nat * token)) (l : list (nat * token))
+  : option (option (nat * token) * option (nat * token)) :=
+  match l with
+  | [] => Some (prev, None)
+  | (i, k) :: r =>
+      if (idx <=? ts k)%N then Some (prev, Some (i, k))
+      else if (te k <=? idx)%N then around idx (Some (i, k)) r
+      else None
+  end.
+
+Definition in_comment (toks : list token) (idx : N) : bool :=
+  existsb (fun c => is_comment (tk c) && (ts c <? idx)%N && (idx <? te c)%N) toks.
+
+Definition decl_of (decls : list (gdecl * nat)) (i : nat) : option (gdecl * nat) :=
+  find (fun go => Nat.leb (snd go + i_s (gdecl_info (fst go))) i && Nat.ltb i (snd go + i_e (gdecl_info (fst go)))) decls.
+
+(* absolute starts of the token ranges of all statements (nested ones included) and the absolute
+   indices of the closing braces of all blocks *)
+Fixpoint stmt_marks (base : nat) (s : stmt) : list nat * list nat :=
+  let opt (r : option (stmt * nat)) : list nat * list nat :=
+    match r with Some (x, off) => stmt_marks (base + off) x | None => ([], []) end in
+  let here := base + i_s (stmt_info s) in
+  match s with
+  | SIf _ t e _ => (here :: fst (opt t) ++ fst (opt e), snd (opt t) ++ snd (opt e))
+  | SWhile _ b _ => (here :: fst (opt b), snd (opt b))
+  | SBlock body inf =>
+      let inner :=
+        (fix go (ss : list (stmt * nat)) : list nat * list nat :=
+           match ss with
+           | [] => ([], [])
+           | (x, off) :: r => let m := stmt_marks (base + off) x in let n := go r in (fst m ++ fst n, snd m ++ snd n)
+           end) body in
+      (here :: fst inner, (base + i_e inf - 1) :: snd inner)
+  | _ => ([here], [])
+  end.
+
+Definition proc_marks (pd : procdecl) (off : nat) : list nat * list nat :=
+  fold_right (fun so acc => let m := stmt_marks (off + snd so) (fst so) in (fst m ++ fst acc, snd m ++ snd acc))
+             ([], [off + i_e (pd_info pd) - 1]) (pd_stmts pd).
+
+(* index of the first significant token at or after the token index a *)
+Definition next_sig (sigs : list (nat * token)) (a : nat) : option nat :=
+  match find (fun it => Nat.leb a (fst it)) sigs with Some (i, _) => Some i | None => None end.
+
+Definition is_lcurly (k : kind) : bool := match k with LCurly => true | _ => false end.
+
+Inductive pclass := PStmt (pd : procdecl) | PExpr (pd : procdecl) | PType | PTop.
+
+Definition nat_in (x : nat) (l : list nat) : bool := existsb (Nat.eqb x) l.
+
+Definition position_class (d : doc) (idx : N) : option pclass :=
+  let toks := d_toks d in
+  let sigs := sig_tokens toks in
+  let decls := pg_decls (d_ast d) in
+  if in_comment toks idx then None else
+  match around idx None sigs with
+  | None => None
+  | Some (before, after) =>
+      let top :=
+        match before with
+        | None => true
+        | Some (i, _) => existsb (fun go => Nat.eqb (snd go + i_e (gdecl_info (fst go))) (S i)) decls
+        end in
+      if top then Some PTop else
+      match before with
+      | None => None
+      | Some (i, k) =>
+          match decl_of decls i with
+          | Some (GProc pd, off) =>
+              let body_start :=
+                match find (fun it => Nat.leb (off + i_s (pd_info pd)) (fst it) && is_lcurly (tk (snd it))) sigs with
+                | Some (b, _) => b
+                | None => off + i_e (pd_info pd)
+                end in
+              let in_body := Nat.leb body_start i in
+              match tk k with
+              | Assign => Some (PExpr pd)
+              | Colon => Some PType
+              | _ =>
+                  if in_body && match tk k with LParen => true | _ => false end then Some (PExpr pd)
+                  else
+                    let marks := proc_marks pd off in
+                    let firsts := flat_map (fun a => match next_sig sigs a with Some j => [j] | None => [] end) (fst marks) in
+                    match after with
+                    | Some (j, _) =>
+                        if in_body && (nat_in j firsts || nat_in j (snd marks)) then Some (PStmt pd) else None
+                    | None => None
+                    end
+              end
+          | _ => None
+          end
+      end
+  end.
+
+Definition item_eqb (a b : item) : bool :=
+  let o (x y : option text) := match x, y with Some p, Some q => text_eqb p q | None, None => true | _, _ => false end in
+  text_eqb (it_label a) (it_label b) && (it_kind a =? it_kind b)%N && o (it_detail a) (it_detail b)
+  && o (it_doc a) (it_doc b) && o (it_insert a) (it_insert b).
+
+Definition items_eqb (a b : list item) : bool := list_eqb item_eqb a b.
+
+Definition is_var (i : item) : bool := (it_kind i =? kind_variable)%N.
+Definition is_fun (i : item) : bool := (it_kind i =? kind_function)%N.
+Definition is_struct (i : item) : bool := (it_kind i =? kind_struct)%N.
+
+(* what C16 prescribes at a position of the given class, decided for one answer *)
+Definition meets (d : doc) (c : pclass) (r : res (option (list item))) : bool :=
+  let g := d_table d in
+  match r with
+  | ROk (Some items) =>
+      match c with
+      | PStmt pd =>
+          items_eqb (filter is_var items) (match get_local_table pd g with Some lt => search_variables lt | None => [] end)
+          && items_eqb (filter is_fun items) (search_procedures g)
+      | PExpr pd =>
+          items_eqb (filter is_var items) (match get_local_table pd g with Some lt => search_variables lt | None => [] end)
+      | PType => items_eqb (filter is_struct items) (search_types g)
+      | PTop => items_eqb items (new_global_declaration g)
+      end
+  | _ => false
+  end.
+
+(* 0 = no claim at this position (document with diagnostics, or position in no class),
+   1 = the answer is what the property prescribes, 2 = it is not *)
+Definition full_flag (d : doc) (line col : N) : N :=
+  match doc_errors d with
+  | Done [] =>
+      match position_class d (get_insertion_index line col (d_text d)) with
+      | Some c => if meets d c (propose d line col) then 1 else 2
+      | None => 0
+      end
+  | _ => 0
+  end%N.
